@@ -8,4 +8,5 @@ for t in python3-vt cargo cargo-kani z3 cvc5 rsync; do command -v $t >/dev/null 
 python3-vt -c "import z3; print('z3 python', z3.get_version_string())" || exit 1
 export PYTHONPATH="$PWD/lib:$PWD/mirx"
 python3-vt lib/selftest.py warm || exit 1
+python3-vt lib/selftest.py validate || { echo "model validation FAILED"; exit 1; }
 echo setup ok
